@@ -48,7 +48,7 @@ def slash_variants(rng, op):
 
 
 def canonical_target(rng, exprs):
-    t = gen_repo.gen_target(rng, exprs, raw=True, extra=PERCENT_VALUES)
+    t = gen_repo.gen_target(rng, exprs, raw=True, extra=PERCENT_VALUES + DOT_SEGMENTS[:9] + DOT_SLASH_SEGMENTS[:4])
     return t
 
 
@@ -272,9 +272,107 @@ def shared_pp_case(rng):
             "ops": ops}, groups
 
 
+# Dot segments.  `.` is an unreserved character: `.`, `%2E` and `%2e` are the same octet, so `/files/./a`, `/files/%2E/a`
+# and `/files/%2e/a` are spellings of ONE request, and so are `..`, `%2E%2E`, `.%2E`, `%2e.`.  Whether a segment is a dot
+# segment can therefore only be said of the DECODED path - and next to an encoded slash the decoded path has segment
+# borders the received one has not (`docs%2F..`).  Heimdall routes on segments as received and forwards them as the
+# setting of the rule says; nothing resolves, drops or re-spells a dot segment.
+DOT_SEGMENTS = [".", "..", "%2E", "%2e", "%2E%2E", "%2e%2e", ".%2E", "%2e.", "%2E%2e", "...", ".a", "a.", "..a", ".%2E."]
+DOT_SLASH_SEGMENTS = ["docs%2F..", "..%2Fa", "a%2F.%2Fb", "%2F..", "..%2f", "a%2f%2E%2E", "%2E%2F%2e", "a%2F.", ".%2Fb",
+                      "a%2F%2e%2e%2Fb", "..%2F..", "a%2Fb"]
+DOT_LITS = ["files", "docs", "d", "v1.0", "api"]
+
+
+def dot_segment_case(rng):
+    """Rules (all three settings, most with a backend, every shape of `rewrite`) over wildcard expressions and over
+    literal expressions that spell a dot segment themselves, and requests whose paths carry dot segments in every
+    spelling (`.`, `..`, `%2E`, `%2e%2e`, `.%2E`, ...) at any position - first, in the middle, last, several - alone,
+    next to an encoded slash (`docs%2F..`, `..%2fa`) and in one path with an encoded slash elsewhere."""
+    lits = rng.sample(DOT_LITS, rng.choice([2, 3, 3, 4]))
+    rules = []
+    for i, lit in enumerate(lits):
+        gen_repo.VERSION[0] += 1
+        shape = rng.choice(["rest", "rest", "two", "one", "mid", "lit", "free"])
+        dot = rng.choice([".", "..", "%2E", "%2e%2e"])
+        paths = {"rest": [f"/{lit}/*rest"], "two": [f"/{lit}/:x/:y", f"/{lit}/:x"], "one": [f"/{lit}/:x", f"/{lit}/:x/a"],
+                 "mid": [f"/{lit}/:x/a", f"/{lit}/:x/:y/a"], "lit": [f"/{lit}/{dot}/a", f"/{lit}/:x/a", f"/{lit}/{dot}"],
+                 "free": [f"/{lit}/**"]}[shape]
+        routes = []
+        for p in paths:
+            pp = []
+            if ":x" in p and rng.random() < 0.3:
+                pp = [dict(rng.choice([{"type": "glob", "value": "*"}, {"type": "glob", "value": ".*"},
+                                       {"type": "exact", "value": ".."}, {"type": "exact", "value": "."},
+                                       {"type": "regex", "value": "^..$"}, {"type": "glob", "value": "**"},
+                                       {"type": "regex", "value": "^.$"}]), name="x")]
+            routes.append({"path": p, "pp": pp})
+        rule = {"id": "r%d" % i, "bt": rng.choice([True, False, None]),
+                "esh": rng.choice(["", "off", "on", "no_decode", "no_decode", "on"]), "scheme": "", "methods": [],
+                "hosts": [], "routes": routes, "ver": gen_repo.VERSION[0]}
+        if rng.random() < 0.85:
+            rule["forward_to"] = gen_repo.gen_forward_to(rng, routes) if rng.random() < 0.6 else \
+                {"host": rng.choice(gen_repo.UP_HOSTS)}
+        rules.append(rule)
+    nsrc = rng.choice([1, 1, 2])
+    ops = []
+    for k in range(nsrc):
+        rs = rules[k::nsrc]
+        if rs:
+            ops.append({"op": "add", "src": "s%d" % (k + 1), "rules": rs})
+    groups = []
+    plain = ["a", "b", "docs", "x", "a%20b", "v1.0"]
+    for _ in range(rng.choice([4, 5, 6, 8])):
+        lit = rng.choice(lits)
+        if rng.random() < 0.6:
+            # along an expression of one of the rules: wildcards take plain values and dot segments, a dot segment the
+            # expression spells is sent in that and in other spellings
+            e = rng.choice([rt["path"] for r in rules for rt in r["routes"]]).split("/")[1:]
+            lit, segs = e[0], []
+            for sg in e[1:]:
+                if sg.startswith(":"):
+                    segs.append(rng.choice(plain + DOT_SEGMENTS[:9]))
+                elif sg.startswith("*"):
+                    segs += [rng.choice(plain + DOT_SEGMENTS[:6]) for _ in range(rng.choice([1, 2, 3]))]
+                elif urllib.parse.unquote(sg) in (".", ".."):
+                    segs.append(rng.choice([sg, sg, urllib.parse.unquote(sg), "%2E" * len(urllib.parse.unquote(sg))]))
+                else:
+                    segs.append(sg)
+            segs = segs or [rng.choice(plain)]
+            if not dot_segments_of("/" + "/".join(segs)) or rng.random() < 0.2:
+                segs.insert(rng.randrange(len(segs) + 1), rng.choice(DOT_SEGMENTS))
+        else:
+            n = rng.choice([1, 2, 2, 3, 4])
+            segs = [rng.choice(plain) for _ in range(n)]
+            for _ in range(rng.choice([1, 1, 2])):          # dot segments, any position
+                segs.insert(rng.randrange(len(segs) + 1), rng.choice(DOT_SEGMENTS))
+        x = rng.random()
+        if x < 0.4:                                       # an encoded slash right next to a dot segment
+            segs[rng.randrange(len(segs))] = rng.choice(DOT_SLASH_SEGMENTS)
+        elif x < 0.7:                                     # ... or elsewhere in the path
+            k = rng.randrange(len(segs))
+            segs[k] = rng.choice(["a%2Fb", "a%2fb", "%2F", segs[k] + "%2F", "%2f" + segs[k]])
+        head = [lit] if rng.random() < 0.9 else [rng.choice(DOT_SEGMENTS), lit]
+        t = "/" + "/".join(head + segs) + rng.choice(["", "", "", "/", "?a=b", "?x=%2E%2E%2F"])
+        f = {"op": "find", "method": rng.choice(gen_repo.METHODS), "host": rng.choice(gen_repo.HOSTS), "target": t}
+        vs = [f] + variants(rng, f, 3)
+        groups.append((len(ops), len(vs)))
+        ops += vs
+    return {"fam": "repo", "envoy": True, "proxy": True, "dr": rng.random() < 0.5, "dr_bt": rng.random() < 0.5,
+            "ops": ops}, groups
+
+
+def dot_segments_of(target):
+    """positions (segment indices) of the segments of the received path that decode to `.` or `..`"""
+    path = target.partition("?")[0]
+    return [k for k, sg in enumerate(path.split("/")) if urllib.parse.unquote(sg) in (".", "..")]
+
+
 def gen_case(rng):
-    if rng.random() < 0.12:
+    x = rng.random()
+    if x < 0.12:
         return shared_pp_case(rng)
+    if x < 0.22:
+        return dot_segment_case(rng)
     base = gen_repo.gen_repo_case(rng, max_ops=6, fwd=0.6)
     ops = [o for o in base["ops"] if o["op"] != "find"]
     if not ops:
@@ -320,6 +418,8 @@ def run(R):
                "on_slash_sent_decoded": 0, "literal_prefix_cut_depends_on_spelling": 0, "envoy_lookups": 0,
                "written_by_proxy": 0, "rewrite_shapes": {}}
 
+    dot_seen = {"lookups_with_dot_segment": 0, "forwarded": 0, "next_to_encoded_slash": 0, "no_decode_with_encoded_slash": 0,
+                "written_by_proxy": 0, "answered_by_literal_dot_expression": 0}
     shared_seen = {"lookups_with_encoded_slash": 0, "answered_off": 0, "answered_on": 0, "answered_no_decode": 0}
     said = set()
 
@@ -354,6 +454,38 @@ def run(R):
                            f"disagree on rule / captured values / acceptance / upstream URL for {op['target']}: "
                            f"http {json.dumps(without_envoy(r))[:220]} envoy {json.dumps(r['envoy'])[:220]}",
                            c, [op], "impl-http-context-vs-envoy-context")
+            dots = dot_segments_of(op["target"])
+            if dots:
+                dot_seen["lookups_with_dot_segment"] += 1
+                raw_path = op["target"].partition("?")[0]
+                if rule is not None and any(urllib.parse.unquote(sg) in (".", "..")
+                                            for rt in rule["routes"] for sg in rt["path"].split("/")):
+                    dot_seen["answered_by_literal_dot_expression"] += 1
+                if isinstance(r.get("up"), dict):
+                    dot_seen["forwarded"] += 1
+                    if "%2f" in raw_path.lower():
+                        dot_seen["next_to_encoded_slash"] += 1
+                        if (rule or {}).get("esh") == "no_decode":
+                            dot_seen["no_decode_with_encoded_slash"] += 1
+                    # a dot segment is forwarded, never resolved: the path sent has as many segments decoding to
+                    # `.` / `..` behind every prefix as the received one (rules without strip_path_prefix; under `on`
+                    # the segments are those of the decoded path)
+                    rw = ((rule or {}).get("forward_to") or {}).get("rewrite") or {}
+                    for what, pth in (("the URL the rule returned", str(r["up"]["path"])), ("the request line the proxy "
+                                      "wrote", sent_path(r))):
+                        if pth is None or rw.get("strip") or rw.get("add", "") not in PLAIN_ADD or not raw_path.isascii():
+                            continue
+                        if what.startswith("the request line"):
+                            dot_seen["written_by_proxy"] += 1
+                        view = (lambda x: urllib.parse.unquote(x, errors="replace")) if (rule or {}).get("esh") == "on" \
+                            else (lambda x: x)
+                        want = len(dot_segments_of(view(raw_path)))
+                        got = len(dot_segments_of(view(pth[len(rw.get("add", "")):])))
+                        if got != want:
+                            report(f"dot segments are forwarded as received, never resolved or dropped: the request "
+                                   f"{op['target']} has {want} of them, the path of {what} {pth!r} has {got} (rule "
+                                   f"{r.get('rule')}, setting {(rule or {}).get('esh') or 'off'})", c, [op],
+                                   "impl-dot-segment-resolved")
             if isinstance(r.get("up"), dict):
                 up_seen["forwarded_lookups"] += 1
                 shape = "+".join(sorted(((rule or {}).get("forward_to") or {}).get("rewrite", {}).keys())) or "none"
@@ -438,10 +570,13 @@ def run(R):
                 "connection: the request target found there is compared with the model, with the URL the rule "
                 "returned, and with the encoded-slash clause. 12 % of the histories load several rules with the very "
                 "same path_params definition under different encoded-slash settings into one rule factory and re-load "
-                "rule sets with only the setting of a rule changed. Non-trivial = group whose reference is answered by "
+                "rule sets with only the setting of a rule changed. 10 % of the histories are about dot segments: "
+                "requests with `.` / `..` in every spelling (%2E, %2e%2E, .%2E ...) at any position, alone, next to an "
+                "encoded slash (docs%2F..) and beside one, against wildcard rules and rules whose literal expression "
+                "spells a dot segment, all settings and rewrite shapes. Non-trivial = group whose reference is answered by "
                 "a regular rule and that contains a percent-encoded spelling; distinct by (rule sets, target)",
         "spelling_groups": ngroups, "encoded_slash_outcomes": slash_seen, "upstream_url": up_seen,
-        "path_params_definition_shared_across_settings": shared_seen,
+        "path_params_definition_shared_across_settings": shared_seen, "dot_segments": dot_seen,
         "lookups_forwarded_model": st.get("forwarded", 0),
         "lookups_matched": st.get("matched", 0), "lookups_default_rule": st.get("default", 0),
         "corpus_cases": len(corpus), "samples": [cases[len(corpus)]] if len(cases) > len(corpus) else [cases[0]],
